@@ -384,6 +384,11 @@ def histories(tier, seed):
     out += [[U[:2] + [U[4]], U[:3] + [U[4]], U[:3] + ["y\n"]],
             [[U[4]], [U[0], U[4]], [U[0], "y\n"], [U[0], U[3], "y\n"]],
             [[U[1], U[4]], [U[1], U[2], U[4]], [U[1], U[2], "y\n", U[4]]]]
+    # lines that merely resemble the "." ending an ed text block (" ." is the empty line of a Description)
+    D = [" .\n", ". \n", "..\n", "\t.\n", "z\n"]
+    out += [[[D[4]], [D[0], D[4]], [D[0], "y\n", D[4]]],
+            [[D[4]], [D[4], D[1], "y\n"], [D[2], D[4], D[1], "y\n"]],
+            [["y\n", D[4]], ["y\n", D[3], D[0], D[4]], ["y\n", D[3], D[0], "w\n"]]]
     core3 = l2[:3]
     out += [[a, b, c, e] for a in core3 for b in core3 for c in core3 for e in core3
             if a != b and b != c and c != e]
